@@ -95,7 +95,13 @@ func NewConn(s Script, clk *Clock) *Conn {
 	if clk == nil {
 		clk = &Clock{}
 	}
-	return &Conn{S: s, Clock: clk, unblock: make(chan struct{}), injErr: &net.OpError{Op: "read", Net: "verif", Err: ErrInjected}}
+	var inner error = ErrInjected
+	if connCtr.Add(1)%2 == 0 {
+		// every second connection's I/O failure is of the "connection timed out" kind: a permanent error whose
+		// Timeout() method says true (ETIMEDOUT after retransmissions gave up) - not a poll deadline
+		inner = permanentTimeout{}
+	}
+	return &Conn{S: s, Clock: clk, unblock: make(chan struct{}), injErr: &net.OpError{Op: "read", Net: "verif", Err: inner}}
 }
 
 func kindErr(k string) error {
@@ -142,6 +148,17 @@ var expireEvery = func() int64 { n, _ := strconv.Atoi(os.Getenv("VERIF_EXPIRE_EV
 var expireCtr atomic.Int64
 
 func forcedExpiry() bool { return expireEvery > 0 && expireCtr.Add(1)%expireEvery == 0 }
+
+var connCtr atomic.Int64
+
+// permanentTimeout is ErrInjected in the shape of a kernel "connection timed out": a net.Error with Timeout() == true that
+// is nevertheless final.
+type permanentTimeout struct{}
+
+func (permanentTimeout) Error() string        { return ErrInjected.Error() } // same text: outcomes of two runs are compared by text
+func (permanentTimeout) Timeout() bool        { return true }
+func (permanentTimeout) Temporary() bool      { return false }
+func (permanentTimeout) Is(target error) bool { return target == ErrInjected }
 
 // Read follows the script.
 func (c *Conn) Read(p []byte) (int, error) {
